@@ -150,6 +150,16 @@ fn uniq(counter: &mut u64) -> Fr {
     Fr::from(1_000_000u64 + *counter)
 }
 
+/// Mostly unique values (a read identifies the write it observed); now and then the default value itself, whose write
+/// still has to raise the leaf count durably.
+fn val(rng: &mut impl rand::RngCore, counter: &mut u64) -> Fr {
+    if rng.gen_range(0..16) == 0 {
+        Fr::from(0u64)
+    } else {
+        uniq(counter)
+    }
+}
+
 pub fn gen_history(rng: &mut impl rand::RngCore, depth: usize, len: usize, with_reset: bool, counter: &mut u64) -> Vec<POp> {
     let cap = 1usize << depth;
     let lim = cap.min(200); // removals go through a u8 interface; bulk writes stay left (pmtree cost)
@@ -158,13 +168,13 @@ pub fn gen_history(rng: &mut impl rand::RngCore, depth: usize, len: usize, with_
     for _ in 0..len {
         let r = rng.gen_range(0..100);
         let op = match r {
-            0..=24 => POp::Set(if rng.gen_bool(0.3) { rng.gen_range(0..cap) } else { rng.gen_range(0..lim) }, uniq(counter)),
+            0..=24 => POp::Set(if rng.gen_bool(0.3) { rng.gen_range(0..cap) } else { rng.gen_range(0..lim) }, val(rng, counter)),
             25..=34 => POp::Delete(rng.gen_range(0..lim.min(mark.max(1)))),
-            35..=49 => POp::Append(uniq(counter)),
+            35..=49 => POp::Append(val(rng, counter)),
             50..=62 => {
                 let n = rng.gen_range(1..5usize);
                 let s = rng.gen_range(0..=(lim - n.min(lim)));
-                POp::Range(s, (0..n).map(|_| uniq(counter)).collect())
+                POp::Range(s, (0..n).map(|_| val(rng, counter)).collect())
             }
             63..=72 => {
                 if rng.gen_bool(0.5) {
@@ -184,9 +194,21 @@ pub fn gen_history(rng: &mut impl rand::RngCore, depth: usize, len: usize, with_
             73..=80 => {
                 // metadata values: fresh bytes of several lengths, the empty value (clears it) and a fixed value that
                 // is written repeatedly (re-writing what may already be stored, also across a reopen)
-                match rng.gen_range(0..6) {
+                match rng.gen_range(0..8) {
                     0 => POp::Meta(vec![]),
                     1 => POp::Meta(b"same-metadata".to_vec()),
+                    // values a storage layer could mistake for "nothing": all-zero bytes of several lengths (a zero
+                    // counter, a zero field element), all-ones, zero-padded values
+                    2 => POp::Meta(vec![0u8; [1usize, 8, 32, 33, 64][rng.gen_range(0..5)]]),
+                    3 => match rng.gen_range(0..4) {
+                        0 => POp::Meta(vec![0xffu8; [1usize, 8, 32][rng.gen_range(0..3)]]),
+                        1 => POp::Meta([vec![0u8; 7], rand_bytes(rng, 3)].concat()),
+                        2 => POp::Meta([rand_bytes(rng, 3), vec![0u8; 29]].concat()),
+                        _ => {
+                            let l = [4096usize, 70_000][rng.gen_range(0..2)];
+                            POp::Meta(rand_bytes(rng, l))
+                        }
+                    },
                     _ => {
                         let l = [1usize, 8, 33, 200][rng.gen_range(0..4)];
                         POp::Meta(rand_bytes(rng, l))
